@@ -91,3 +91,13 @@ package keeper
 //@   invariant true
 //@ loop #2
 //@   invariant[C20.aee.pertask] len(operatorPowers) == len(signedOperatorList)
+
+// ---------------------------------------------------------------------------------------------
+// C10 (task creation binds to the calling contract's AVS and requires a listed owner of THAT AVS): the AVS that
+// authorises a task contract's callers is found through the task address, so a task address must serve one AVS only:
+// on registration and on update the address checked for prior use is the one the request installs.
+//@ func (Keeper).UpdateAVSInfo
+//@   requires params != nil
+//@   flag noframe
+//@   flag pure=GetAVSInfo,GetEpochInfo,GetAVSInfoByTaskAddress,ValidateAssetIDs,ChainIDWithoutRevision,Contains,NewDecWithPrec
+//@   before[C10.uai.taskaddr] GetAVSInfoByTaskAddress requires arg_taskAddr == params.TaskAddr
